@@ -71,6 +71,7 @@ package db
 //@ ghost var cbRuns int
 //@ ghost var sqlCommits int
 //@ ghost var sqlRollbacks int
+//@ ghost var lastSQLOK bool
 //@ interface functype:func()@db.(*Tx).Rollback ()
 //@   modifies cbRuns
 //@   ensures cbRuns == old(cbRuns) + 1
@@ -78,11 +79,11 @@ package db
 //@   modifies cbRuns
 //@   ensures cbRuns == old(cbRuns) + 1
 //@ interface github.com/agglayer/aggkit/db/types.SQLTxer.Commit@db.(*Tx).Commit (self)
-//@   modifies sqlCommits
-//@   ensures sqlCommits == old(sqlCommits) + 1
+//@   modifies sqlCommits, lastSQLOK
+//@   ensures sqlCommits == old(sqlCommits) + 1 && lastSQLOK == (result == nil)
 //@ interface github.com/agglayer/aggkit/db/types.SQLTxer.Rollback@db.(*Tx).Rollback (self)
-//@   modifies sqlRollbacks
-//@   ensures sqlRollbacks == old(sqlRollbacks) + 1
+//@   modifies sqlRollbacks, lastSQLOK
+//@   ensures sqlRollbacks == old(sqlRollbacks) + 1 && lastSQLOK == (result == nil)
 
 //@ func (s *Tx) AddRollbackCallback
 //@   props C07
@@ -99,17 +100,19 @@ package db
 //@ func (s *Tx) Rollback
 //@   props C07
 //@   requires s != nil && s.SQLTxer != nil
-//@   modifies cbRuns, sqlRollbacks
+//@   modifies cbRuns, sqlRollbacks, lastSQLOK
 //@   ensures[one-sql-rollback] sqlRollbacks == old(sqlRollbacks) + 1
+//@   ensures[success-is-the-sql-rollbacks-success] (result == nil) == lastSQLOK
 //@   ensures[every-undo-runs-once-after-a-successful-rollback] result == nil ==> cbRuns == old(cbRuns) + len(s.rollbackCallbacks)
 //@   ensures[failed-rollback-runs-nothing] result != nil ==> cbRuns == old(cbRuns)
-//@   loop 0 invariant 0 <= rangeindex + 1 && rangeindex + 1 <= len(s.rollbackCallbacks) && cbRuns == old(cbRuns) + rangeindex + 1 && sqlRollbacks == old(sqlRollbacks) + 1
+//@   loop 0 invariant 0 <= rangeindex + 1 && rangeindex + 1 <= len(s.rollbackCallbacks) && cbRuns == old(cbRuns) + rangeindex + 1 && sqlRollbacks == old(sqlRollbacks) + 1 && lastSQLOK
 
 //@ func (s *Tx) Commit
 //@   props C07
 //@   requires s != nil && s.SQLTxer != nil
-//@   modifies cbRuns, sqlCommits
+//@   modifies cbRuns, sqlCommits, lastSQLOK
 //@   ensures[one-sql-commit] sqlCommits == old(sqlCommits) + 1
+//@   ensures[success-is-the-sql-commits-success] (result == nil) == lastSQLOK
 //@   ensures[commit-callbacks-only-after-a-successful-commit] result == nil ==> cbRuns == old(cbRuns) + len(s.commitCallbacks)
 //@   ensures[failed-commit-runs-nothing] result != nil ==> cbRuns == old(cbRuns)
-//@   loop 0 invariant 0 <= rangeindex + 1 && rangeindex + 1 <= len(s.commitCallbacks) && cbRuns == old(cbRuns) + rangeindex + 1 && sqlCommits == old(sqlCommits) + 1
+//@   loop 0 invariant 0 <= rangeindex + 1 && rangeindex + 1 <= len(s.commitCallbacks) && cbRuns == old(cbRuns) + rangeindex + 1 && sqlCommits == old(sqlCommits) + 1 && lastSQLOK
